@@ -23,6 +23,9 @@ type C06Params struct {
 	// Prior: an earlier lossy encode in the same world with the same macroblock grid,
 	// so that the checked encode runs on a reused (pooled) encoder
 	Prior *Op `json:"prior,omitempty"`
+	// PriorDec: a lossy file decoded in the world in which this package's decoder then
+	// decodes the checked stream (pooled decoder reuse)
+	PriorDec *Op `json:"prior_dec,omitempty"`
 }
 
 type propC06 struct{}
@@ -62,6 +65,15 @@ func (propC06) Gen(seed uint64, tier string, idx int) any {
 	switch p.Img.Type {
 	case "paletted", "nrgba64", "nrgba64sub", "palsub":
 		p.Img.Type = "nrgba"
+	}
+	if r.Pct(25) {
+		// a flat or arbitrary lossy picture decoded just before, same macroblock columns
+		op := Op{Kind: "dec", Img: GenImgSpec(r, 1, 80, 0), Opt: GenLossyOpts(r, 0, false)}
+		op.Img.Family = r.PickS("flat", "flat", "hgrad", "noise", "smooth")
+		op.Img.W = p.Img.W
+		op.Img.H = r.Pick(16, 17, 32, 48, p.Img.H)
+		op.Img.Type, op.Img.Alpha = "nrgba", "opaque"
+		p.PriorDec = &op
 	}
 	if r.Pct(30) {
 		op := Op{Kind: "enc", Img: GenImgSpec(r, 1, 80, 1), Opt: GenLossyOpts(r, 0, false)}
@@ -194,7 +206,15 @@ func (propC06) Execute(pp any, x *X) *Violation {
 	var dy, du, dv []byte
 	var dys, duvs int
 	var derr error
-	ws := x.Solo(1, func() {
+	var priorDecIn []byte
+	if p.PriorDec != nil {
+		priorDecIn = FileFor(p.PriorDec.Img, p.PriorDec.Opt)
+	}
+	ws := vsim.NewWorld(vsim.Config{Policy: vsim.PolCanonical, Procs: 1, RandomPools: p.PriorDec != nil, PoolHitPct: 100}, nil, 0)
+	ws.Run(func() {
+		if priorDecIn != nil {
+			webp.Decode(bytes.NewReader(priorDecIn))
+		}
 		lossy.VerifSkipLoopFilter = true
 		defer func() { lossy.VerifSkipLoopFilter = false }()
 		dec, dw, dh, y, ys, u, v, uvs, err := lossy.DecodeFrame(fr.Bitstream)
